@@ -567,3 +567,310 @@ Proof.
     pose proof (Hrange _ Imn) as H1. pose proof (Hrange _ Imx) as H2.
     change (2 ^ 63)%Z with 9223372036854775808%Z. lia.
 Qed.
+
+(* ========================================================================== *)
+(* 7. code / flag columns                                                        *)
+(* ========================================================================== *)
+
+Lemma dec_incs_codeflag_of_num wd dnbits mn : forall n r vs r',
+  (dnbits <= 64)%Z ->
+  dec_incs_num wd mn n r = Ok (vs, r') ->
+  (forall x, In (Some x) vs -> (1 < dnbits)%Z -> x <> (2 ^ Z.to_N dnbits - 1)%N) ->
+  dec_incs_codeflag wd dnbits mn n r = Ok (vs, r').
+Proof.
+  induction n as [|n IH]; intros r vs r' Hdn H Hok.
+  - exact H.
+  - cbn [dec_incs_num dec_incs_codeflag] in *.
+    destruct (read_uint_or_none (Z.of_N wd) r) as [[d r1]|e]; cbn [bind] in *; [|discriminate].
+    destruct (dec_incs_num wd mn n r1) as [[vs1 r2]|e] eqn:E1; cbn [bind] in *; [|discriminate].
+    injection H as <- <-.
+    assert (IH' := IH r1 vs1 r2 Hdn E1 (fun x Hx => Hok x (or_intror Hx))).
+    destruct (onebit_rule wd d) as [x|]; cbn [bind].
+    + unfold codeflag_recheck.
+      destruct (Z.ltb_spec 1 dnbits) as [H1|H1].
+      * destruct (Z.ltb_spec 64 dnbits); [lia|]. unfold missing_value.
+        destruct (N.eqb_spec (mn + x) (2 ^ Z.to_N dnbits - 1)) as [Em|Em].
+        -- exfalso. exact (Hok _ (or_introl eq_refl) H1 Em).
+        -- cbn [bind]. rewrite IH'. reflexivity.
+      * cbn [bind]. rewrite IH'. reflexivity.
+    + rewrite IH'. reflexivity.
+Qed.
+
+(* whenever the numeric decoder returns a column none of whose values is the
+   element's all-ones pattern, the code/flag decoder returns the same *)
+Theorem dec_codeflag_of_num w dnbits n r vs r' :
+  (dnbits <= 64)%Z ->
+  dec_col_num w n r = Ok (vs, r') ->
+  (forall x, In (Some x) vs -> (1 < dnbits)%Z -> x <> (2 ^ Z.to_N dnbits - 1)%N) ->
+  dec_col_codeflag w dnbits n r = Ok (vs, r').
+Proof.
+  intros Hdn H Hok. unfold dec_col_num, dec_col_codeflag in *.
+  destruct (read_uint_or_none w r) as [[mn r1]|e]; cbn [bind] in *; [|discriminate].
+  destruct (read_uint NBITS_FOR_NBITS_DIFF r1) as [[nd r2]|e]; cbn [bind] in *; [|discriminate].
+  destruct mn as [m|]; cbn [is_none orb].
+  - destruct (nd =? 0)%N; [exact H|].
+    apply dec_incs_codeflag_of_num; assumption.
+  - destruct (nd =? 0)%N; [exact H|discriminate].
+Qed.
+
+Theorem col_roundtrip_codeflag w ae raws o t :
+  col_dom_num w ae raws = true ->
+  exists e, enc_col_codeflag w ae raws o = Ok (o ++ e) /\
+            dec_col_codeflag w w (length raws) (e ++ t) = Ok (raw_view raws, t).
+Proof.
+  intros Hdom. destruct (col_roundtrip_num w ae raws o t Hdom) as (e & He & Hd).
+  exists e. split; [exact He|].
+  unfold col_dom_num in Hdom.
+  apply andb_true_iff in Hdom as [H _]. apply andb_true_iff in H as [H Hrange].
+  apply andb_true_iff in H as [H _]. apply andb_true_iff in H as [Hw2 Hw64].
+  apply dec_codeflag_of_num; [lia|exact Hd|].
+  intros x Hx _ E. apply in_raw_view in Hx as (z & Hz & ->).
+  rewrite forallb_forall in Hrange. specialize (Hrange _ Hz). cbn in Hrange.
+  pose proof (pow2_pos_Z w ltac:(lia)).
+  rewrite <- Z2N_pow2m1 in E by lia. lia.
+Qed.
+
+(* every legal width, code/flag reading *)
+Theorem dec_col_any_width_codeflag w dnbits wd base raws t :
+  (1 <= w <= 64)%Z -> (dnbits <= 64)%Z -> (1 <= wd <= 63)%Z -> base_ok w base ->
+  (forall x, In (Some x) raws -> (base <= x /\ x - base < 2 ^ Z.to_N wd - 1)%N) ->
+  (forall x, In (Some x) raws -> (1 < dnbits)%Z -> x <> (2 ^ Z.to_N dnbits - 1)%N) ->
+  dec_col_codeflag w dnbits (length raws) (lay_col_num w wd base raws ++ t) = Ok (raws, t).
+Proof.
+  intros Hw Hdn Hwd Hb Hall Hok.
+  apply dec_codeflag_of_num; [exact Hdn| |exact Hok].
+  apply dec_col_any_width; assumption.
+Qed.
+
+(* ========================================================================== *)
+(* 8. shape of the encoder's output                                              *)
+(* ========================================================================== *)
+
+(* the 6-bit width field of an encoded column *)
+Definition col_width_field (w : Z) (e : bits) : N := of_bits (firstn 6 (skipn (Z.to_nat w) e)).
+Definition col_base_field (w : Z) (e : bits) : bits := firstn (Z.to_nat w) e.
+
+Lemma width_field_lay w b6 base rest :
+  length base = Z.to_nat w -> length b6 = 6%nat ->
+  col_width_field w (base ++ b6 ++ rest) = of_bits b6 /\ col_base_field w (base ++ b6 ++ rest) = base.
+Proof.
+  intros Hb H6. unfold col_width_field, col_base_field.
+  rewrite skipn_app_exact by exact Hb. rewrite !firstn_app_exact by assumption. auto.
+Qed.
+
+Lemma forallb_opt_eqb_iff v0 l :
+  forallb (opt_eqb v0) l = true <-> (forall v, In v l -> v = v0).
+Proof.
+  rewrite forallb_forall. split; intros H v Hv.
+  - symmetry. apply opt_eqb_eq, H, Hv.
+  - rewrite (H v Hv). destruct v0; cbn; [lia|reflexivity].
+Qed.
+
+(* The width field is 0 exactly when the caller's all_equal flag is set; with
+   an exact flag (all_equal = "all entries are equal") this is
+   "width 0 iff all equal".  And the base field is all ones exactly when the
+   whole column is missing. *)
+Theorem width0_iff_all_equal w ae raws o :
+  col_dom_num w ae raws = true ->
+  exists e, enc_col_num w ae raws o = Ok (o ++ e) /\
+    (col_width_field w e = 0%N <-> ae = true) /\
+    (col_width_field w e = 0%N -> forall v, In v raws -> v = hd None raws) /\
+    (all_ones (col_base_field w e) = true <-> (forall v, In v raws -> v = None)).
+Proof.
+  intros Hdom. pose proof Hdom as Hdom'. unfold col_dom_num in Hdom.
+  apply andb_true_iff in Hdom as [H Hspread]. apply andb_true_iff in H as [H Hrange].
+  apply andb_true_iff in H as [H Hflag]. apply andb_true_iff in H as [Hw2 Hw64].
+  assert (Hp := pow2_pos_Z w ltac:(lia)).
+  rewrite forallb_forall in Hrange.
+  destruct raws as [|v0 raws']; [discriminate|].
+  set (raws := v0 :: raws') in *.
+  destruct ae.
+  - cbn [flag_ok raws] in Hflag. fold raws in Hflag.
+    pose proof (proj1 (forallb_opt_eqb_iff v0 raws) Hflag) as Heq.
+    destruct v0 as [v|].
+    + pose proof (Hrange _ (or_introl eq_refl)) as Hv. cbn in Hv.
+      exists (to_bits (Z.to_nat w) (Z.to_N v) ++ to_bits 6 0 ++ []). split.
+      * unfold enc_col_num, raws. cbn [andb is_none bind].
+        rewrite col_header_ok by lia. rewrite app_nil_r. reflexivity.
+      * destruct (width_field_lay w (to_bits 6 0) (to_bits (Z.to_nat w) (Z.to_N v)) [])
+          as [-> ->]; [apply length_to_bits|reflexivity|].
+        split; [split; reflexivity|]. split; [intros _; exact Heq|].
+        rewrite to_bits_allones_iff by (rewrite Z2N_pow, <- Z2N_pow2 by lia; lia).
+        rewrite Z2N_pow, <- Z2N_pow2m1 by lia. split.
+        -- intros E. exfalso. lia.
+        -- intros Hnone. specialize (Hnone _ (or_introl eq_refl)). discriminate.
+    + exists (ones (Z.to_nat w) ++ to_bits 6 0 ++ []). split.
+      * unfold enc_col_num, raws. cbn [andb is_none].
+        rewrite numeric_missing_ok by lia. cbn [bind].
+        rewrite col_header_ok by lia.
+        rewrite Z2N_pow2m1 by lia. rewrite to_bits_ones_Z by lia. rewrite app_nil_r. reflexivity.
+      * destruct (width_field_lay w (to_bits 6 0) (ones (Z.to_nat w)) [])
+          as [-> ->]; [unfold ones; apply repeat_length|reflexivity|].
+        split; [split; reflexivity|]. split; [intros _; exact Heq|].
+        rewrite all_ones_ones. split; [intros _; exact Heq|reflexivity].
+  - cbn [flag_ok raws] in Hflag. fold raws in Hflag.
+    destruct (minmax raws) as [[mn mx]|] eqn:Hmm.
+    2:{ exfalso. apply existsb_exists in Hflag as (v & Hin & Hv).
+        rewrite (proj1 (minmax_none raws) Hmm v Hin) in Hv. discriminate. }
+    destruct (minmax_spec raws mn mx Hmm) as (Imn & Imx & Hall).
+    pose proof (Hrange _ Imn) as Hmn. cbn in Hmn.
+    unfold spread_ok in Hspread. rewrite Hmm in Hspread.
+    destruct (enc_col_num_layout w raws o mn mx) as (Hnd & Hdiff & Henc);
+      [lia|discriminate|exact Hmm|lia|lia|].
+    set (nd := Z.of_N (nbits_for_uint (Z.to_N (mx - mn + 1)))) in *.
+    eexists. split; [exact Henc|]. unfold lay_col_num.
+    destruct (width_field_lay w (to_bits 6 (Z.to_N nd)) (to_bits (Z.to_nat w) (Z.to_N mn))
+                (lay_incs nd (Z.to_N mn) (raw_view raws))) as [-> ->];
+      [apply length_to_bits|apply length_to_bits|].
+    rewrite of_bits_to_bits by (change (2 ^ N.of_nat 6)%N with 64%N; lia).
+    split; [split; [lia|discriminate]|]. split; [lia|].
+    rewrite to_bits_allones_iff by (rewrite Z2N_pow, <- Z2N_pow2 by lia; lia).
+    rewrite Z2N_pow, <- Z2N_pow2m1 by lia. split.
+    + intros E. exfalso. lia.
+    + intros Hnone. specialize (Hnone _ Imn). discriminate.
+Qed.
+
+(* With increments present, the i-th increment has the announced width, is all
+   ones exactly when the i-th entry is missing, and otherwise base + increment
+   is the entry ("the encoder's column reconstructs"). *)
+Theorem allones_iff_missing w raws o :
+  col_dom_num w false raws = true ->
+  exists (base : N) (nd : Z) (incs : list bits),
+    enc_col_num w false raws o =
+      Ok (o ++ to_bits (Z.to_nat w) base ++ to_bits 6 (Z.to_N nd) ++ concat incs) /\
+    (2 <= nd <= 63)%Z /\
+    Forall2 (fun v inc =>
+               length inc = Z.to_nat nd /\
+               (all_ones inc = true <-> v = None) /\
+               (forall x, v = Some x -> (base + of_bits inc)%N = Z.to_N x)) raws incs.
+Proof.
+  intros Hdom. unfold col_dom_num in Hdom.
+  apply andb_true_iff in Hdom as [H Hspread]. apply andb_true_iff in H as [H Hrange].
+  apply andb_true_iff in H as [H Hflag]. apply andb_true_iff in H as [Hw2 Hw64].
+  assert (Hp := pow2_pos_Z w ltac:(lia)).
+  rewrite forallb_forall in Hrange.
+  destruct raws as [|v0 raws']; [discriminate|].
+  set (raws := v0 :: raws') in *.
+  cbn [flag_ok raws] in Hflag. fold raws in Hflag.
+  destruct (minmax raws) as [[mn mx]|] eqn:Hmm.
+  2:{ exfalso. apply existsb_exists in Hflag as (v & Hin & Hv).
+      rewrite (proj1 (minmax_none raws) Hmm v Hin) in Hv. discriminate. }
+  destruct (minmax_spec raws mn mx Hmm) as (Imn & Imx & Hall).
+  pose proof (Hrange _ Imn) as Hmn. cbn in Hmn.
+  unfold spread_ok in Hspread. rewrite Hmm in Hspread.
+  destruct (enc_col_num_layout w raws o mn mx) as (Hnd & Hdiff & Henc);
+    [lia|discriminate|exact Hmm|lia|lia|].
+  set (nd := Z.of_N (nbits_for_uint (Z.to_N (mx - mn + 1)))) in *.
+  clearbody nd raws.
+  exists (Z.to_N mn), nd,
+    (map (fun v => match v with
+                   | None => ones (Z.to_nat nd)
+                   | Some x => to_bits (Z.to_nat nd) (x - Z.to_N mn)
+                   end) (raw_view raws)).
+  split.
+  { rewrite Henc. unfold lay_col_num, lay_incs. rewrite flat_map_concat_map. reflexivity. }
+  split; [exact Hnd|].
+  assert (Hpn := pow2_pos_Z nd ltac:(lia)).
+  clear Henc Hmm Imn Imx Hall Hflag Hrange.
+  induction raws as [|v raws IH]; [constructor|].
+  cbn [raw_view map]. constructor.
+  - destruct v as [x|]; cbn [option_map].
+    + destruct (Hdiff x (or_introl eq_refl)) as [Hx1 Hx2].
+      split; [apply length_to_bits|].
+      assert (Hlt : (Z.to_N x - Z.to_N mn < 2 ^ N.of_nat (Z.to_nat nd))%N).
+      { rewrite Z2N_pow, <- Z2N_pow2 by lia. lia. }
+      split.
+      * rewrite to_bits_allones_iff by exact Hlt.
+        rewrite Z2N_pow, <- Z2N_pow2m1 by lia.
+        split; [intros E; exfalso; lia|discriminate].
+      * intros y Ey. injection Ey as <-. rewrite of_bits_to_bits by exact Hlt. lia.
+    + split; [unfold ones; apply repeat_length|].
+      split; [rewrite all_ones_ones; split; reflexivity|discriminate].
+  - apply IH. intros x Hx. apply Hdiff. right. exact Hx.
+Qed.
+
+(* ========================================================================== *)
+(* 9. the independent reader                                                     *)
+(* ========================================================================== *)
+
+Lemma spec_incs_agree nb r0 : forall n r,
+  (1 <= nb <= 64)%nat -> spec_incs nb r0 n r = dec_incs_num (N.of_nat nb) r0 n r.
+Proof.
+  induction n as [|n IH]; intros r Hnb; [reflexivity|].
+  cbn [spec_incs dec_incs_num].
+  unfold read_uint_or_none, read_uint.
+  destruct (Z.leb_spec (Z.of_N (N.of_nat nb)) 0); [lia|].
+  replace (Z.to_nat (Z.of_N (N.of_nat nb))) with nb by lia.
+  destruct (take_bits nb r) as [[b r1]|e] eqn:Et; cbn [bind]; [|reflexivity].
+  apply take_bits_ok in Et as [_ Hlen].
+  rewrite IH by exact Hnb.
+  rewrite all_ones_of_bits, Hlen.
+  destruct (Z.ltb_spec 1 (Z.of_N (N.of_nat nb))) as [H1|H1].
+  - destruct (Z.ltb_spec 64 (Z.of_N (N.of_nat nb))); [lia|].
+    unfold missing_value. replace (Z.to_N (Z.of_N (N.of_nat nb))) with (N.of_nat nb) by lia.
+    destruct (N.eqb_spec (of_bits b) (2 ^ N.of_nat nb - 1)) as [E|E]; cbn [bind onebit_rule].
+    + reflexivity.
+    + destruct (N.eqb_spec (N.of_nat nb) 1); [lia|]. rewrite andb_false_r. reflexivity.
+  - replace (N.of_nat nb) with 1%N by lia. cbn [bind onebit_rule].
+    change (2 ^ 1 - 1)%N with 1%N. rewrite N.eqb_refl, andb_true_r.
+    destruct (of_bits b =? 1)%N; reflexivity.
+Qed.
+
+Lemma read_uint6 r :
+  read_uint NBITS_FOR_NBITS_DIFF r = (let* (b, r') := take_bits 6 r in Ok (of_bits b, r')).
+Proof. reflexivity. Qed.
+
+(* C05 "and by an independent reader": on EVERY stream (legal or not, long
+   enough or not) the implementation's numeric decoder and the FM 94 reading
+   return the same result, for every element width 1..64.  (Beyond 64 bits the
+   implementation raises IndexError; the reference reading has no such limit.) *)
+Theorem spec_reader_agrees w n r :
+  (1 <= w <= 64)%Z -> spec_dec_col_num w n r = dec_col_num w n r.
+Proof.
+  intros Hw. unfold spec_dec_col_num, dec_col_num, read_uint_or_none.
+  destruct (Z.ltb_spec w 1); [lia|].
+  unfold read_uint at 1. destruct (Z.leb_spec w 0); [lia|].
+  destruct (take_bits (Z.to_nat w) r) as [[b0 r1]|e] eqn:E0; cbn [bind]; [|reflexivity].
+  apply take_bits_ok in E0 as [_ Hl0].
+  assert (Hmiss : ((1 <? w)%Z && all_ones b0) =
+                  ((1 <? w)%Z && (of_bits b0 =? missing_value (Z.to_N w))%N)).
+  { rewrite all_ones_of_bits, Hl0. unfold missing_value. rewrite Z2N_pow by lia. reflexivity. }
+  rewrite Hmiss. clear Hmiss.
+  assert (Htail : forall (m : option N),
+    (let* (bw, r2) := take_bits 6 r1 in
+     match N.to_nat (of_bits bw) with
+     | O => Ok (repeat (if is_none m then None else Some (of_bits b0)) n, r2)
+     | S _ as nb => if is_none m then Err EAssert else spec_incs nb (of_bits b0) n r2
+     end) =
+    (let* (nd, r2) := read_uint NBITS_FOR_NBITS_DIFF r1 in
+     match (if is_none m then None else Some (of_bits b0)) with
+     | None => if (nd =? 0)%N then Ok (repeat None n, r2) else Err EAssert
+     | Some m0 => if (nd =? 0)%N then Ok (repeat (Some m0) n, r2) else dec_incs_num nd m0 n r2
+     end)).
+  { intros m. rewrite read_uint6.
+    destruct (take_bits 6 r1) as [[bw r2]|e] eqn:E6; cbn [bind]; [|reflexivity].
+    apply take_bits_ok in E6 as [_ Hl6]. pose proof (of_bits_lt bw) as Hlt. rewrite Hl6 in Hlt.
+    change (2 ^ N.of_nat 6)%N with 64%N in Hlt.
+    destruct (N.eqb_spec (of_bits bw) 0) as [Z0|Z0].
+    - rewrite Z0. cbn [N.to_nat]. destruct (is_none m); reflexivity.
+    - destruct (N.to_nat (of_bits bw)) eqn:En; [lia|]. rewrite <- En.
+      destruct (is_none m); [reflexivity|].
+      rewrite spec_incs_agree by lia. rewrite N2Nat.id. reflexivity. }
+  destruct (Z.ltb_spec 1 w) as [H1|H1]; cbn [andb].
+  - destruct (Z.ltb_spec 64 w); [lia|].
+    destruct (of_bits b0 =? missing_value (Z.to_N w))%N; cbn [bind].
+    + exact (Htail None).
+    + exact (Htail (Some 0%N)).
+  - cbn [bind]. exact (Htail (Some 0%N)).
+Qed.
+
+(* hence: the independent reader reads the encoder's output as the column *)
+Corollary spec_reads_encoder w ae raws o t :
+  col_dom_num w ae raws = true ->
+  exists e, enc_col_num w ae raws o = Ok (o ++ e) /\
+            spec_dec_col_num w (length raws) (e ++ t) = Ok (raw_view raws, t).
+Proof.
+  intros Hdom. destruct (col_roundtrip_num w ae raws o t Hdom) as (e & He & Hd).
+  exists e. split; [exact He|]. rewrite spec_reader_agrees; [exact Hd|].
+  unfold col_dom_num in Hdom. lia.
+Qed.
